@@ -57,6 +57,8 @@ pub struct XCfg {
     /// mixed-method run: every call may use the with- or the without-replacement method
     /// (pending state is method-agnostic and the API allows alternating)
     pub mixed: bool,
+    /// mixed-sink run: every call may also pick the UTF-8 or the UTF-16 slice sink (implies mixed)
+    pub mixed_sink: bool,
 }
 
 impl XCfg {
@@ -65,7 +67,7 @@ impl XCfg {
             "{}/{}/{}/{}",
             self.enc.name,
             self.sink.name(),
-            if self.mixed { "mixed" } else if self.repl { "repl" } else { "norepl" },
+            if self.mixed_sink { "mixed-sinks" } else if self.mixed { "mixed" } else if self.repl { "repl" } else { "norepl" },
             match self.bom {
                 BomMode::Off => "bom-off",
                 BomMode::Sniff => "bom-sniff",
@@ -215,6 +217,10 @@ fn units_of(c: u32, utf16: bool) -> usize {
 
 pub struct Explorer<'a> {
     cfg: &'a XCfg,
+    /// the same configuration with the other slice sink (mixed-sink runs)
+    cfg_alt: XCfg,
+    /// the (replacement mode, sink) choices open to every call
+    methods: Vec<(bool, Sink)>,
     chunks: Vec<Vec<u8>>,
     chunks_undecided: Vec<Vec<u8>>,
     chunks_switched: Vec<Vec<u8>>,
@@ -257,11 +263,20 @@ impl<'a> Explorer<'a> {
             }
         }
         let chunks_undecided = if cfg.syms_undecided.is_empty() { vec![] } else { build_chunks(&all, cfg.k) };
-        Explorer { cfg, chunks: build_chunks(&cfg.syms, cfg.k), chunks_undecided, chunks_switched: if cfg.syms_switched.is_empty() { vec![] } else { build_chunks(&cfg.syms_switched, cfg.k) }, nodes: vec![], keys: vec![], index: HashIndex::new(), edges: vec![], classified: std::sync::atomic::AtomicUsize::new(0), shard: format!("xdec/{}", cfg.label()), node_seen: std::sync::Mutex::new(std::collections::HashSet::new()) }
+        let mut cfg_alt = cfg.clone();
+        cfg_alt.sink = if cfg.sink.is_utf16() { Sink::Utf8 } else { Sink::Utf16 };
+        let methods: Vec<(bool, Sink)> = if cfg.mixed_sink {
+            vec![(false, Sink::Utf8), (true, Sink::Utf8), (false, Sink::Utf16), (true, Sink::Utf16)]
+        } else if cfg.mixed {
+            vec![(false, cfg.sink), (true, cfg.sink)]
+        } else {
+            vec![(cfg.repl, cfg.sink)]
+        };
+        Explorer { cfg, cfg_alt, methods, chunks: build_chunks(&cfg.syms, cfg.k), chunks_undecided, chunks_switched: if cfg.syms_switched.is_empty() { vec![] } else { build_chunks(&cfg.syms_switched, cfg.k) }, nodes: vec![], keys: vec![], index: HashIndex::new(), edges: vec![], classified: std::sync::atomic::AtomicUsize::new(0), shard: format!("xdec/{}", cfg.label()), node_seen: std::sync::Mutex::new(std::collections::HashSet::new()) }
     }
 
-    fn query(&self, dec: &Decoder, n: usize, repl: bool) -> Option<usize> {
-        match (self.cfg.sink, repl) {
+    fn query(&self, dec: &Decoder, n: usize, repl: bool, sink: Sink) -> Option<usize> {
+        match (sink, repl) {
             (Sink::Utf16, _) => dec.max_utf16_buffer_length(n),
             (_, true) => dec.max_utf8_buffer_length(n),
             (_, false) => dec.max_utf8_buffer_length_without_replacement(n),
@@ -269,8 +284,8 @@ impl<'a> Explorer<'a> {
     }
 
     /// Reference output size (units of the sink) of `src` from this node, owed tokens included.
-    fn ref_units(&self, key: &Key, src: &[u8], last: bool, repl: bool) -> usize {
-        let utf16 = self.cfg.sink.is_utf16();
+    fn ref_units(&self, key: &Key, src: &[u8], last: bool, repl: bool, sink: Sink) -> usize {
+        let utf16 = sink.is_utf16();
         let mut rs = key.rs.clone();
         let mut tmp = vec![];
         for &b in src {
@@ -307,9 +322,9 @@ impl<'a> Explorer<'a> {
         w
     }
 
-    fn caps(&self, key: &Key, src: &[u8], last: bool, repl: bool) -> Vec<usize> {
-        let min = self.cfg.sink.min_cap();
-        let w = self.ref_units(key, src, last, repl);
+    fn caps(&self, key: &Key, src: &[u8], last: bool, repl: bool, sink: Sink) -> Vec<usize> {
+        let min = sink.min_cap();
+        let w = self.ref_units(key, src, last, repl, sink);
         let mut v: Vec<usize> = vec![];
         if self.cfg.few_caps {
             v.extend_from_slice(&[min, w.max(min), w + 64]);
@@ -328,14 +343,23 @@ impl<'a> Explorer<'a> {
             }
             v.push(w + 64);
         }
-        if self.cfg.or.query || !self.cfg.few_caps {
-            if let Some(q) = self.query(&key.dec, src.len(), repl) {
+        if !self.cfg.or.query && !self.cfg.few_caps {
+            if let Some(q) = self.query(&key.dec, src.len(), repl, sink) {
                 if q < 1 << 20 {
                     v.push(q);
                 }
             }
         }
         v.retain(|c| *c >= min);
+        if self.cfg.or.query {
+            // C07 does not restrict the guarantee to the documented minimum sizes: the queried
+            // value is offered exactly, however small it is
+            if let Some(q) = self.query(&key.dec, src.len(), repl, sink) {
+                if q < 1 << 20 {
+                    v.push(q);
+                }
+            }
+        }
         if self.cfg.or.submin {
             for c in 0..min {
                 v.push(c);
@@ -401,12 +425,12 @@ impl<'a> Explorer<'a> {
         let mut last = false;
         let mut done_chunk = true;
         let mut t: i64 = 0;
-        let mut do_call = |dec: &mut Decoder, run: &mut DecRun, src: &[u8], cap: usize, lastf: bool, fill: u8, repl: bool| -> Result<(Res, usize), String> {
-            let fill = if cfg.sink == Sink::Str { fill & 0x7F } else { fill };
+        let mut do_call = |dec: &mut Decoder, run: &mut DecRun, src: &[u8], cap: usize, lastf: bool, fill: u8, repl: bool, sink: Sink| -> Result<(Res, usize), String> {
+            let fill = if sink == Sink::Str { fill & 0x7F } else { fill };
             let d = Dst { cap, fill, align: 0, prior: None };
-            let o = call_decoder(dec, cfg.sink, repl, src, lastf, &d)?;
+            let o = call_decoder(dec, sink, repl, src, lastf, &d)?;
             t += o.read as i64;
-            match scalars(&o, cfg.sink) {
+            match scalars(&o, sink) {
                 Ok(v) => {
                     for c in v {
                         run.toks.push(Tok::Char(c));
@@ -425,7 +449,7 @@ impl<'a> Explorer<'a> {
             Ok(r)
         };
         for c in calls {
-            let (res, read) = do_call(&mut dec, &mut run, &c.src, c.cap, c.last, c.fill, c.repl(cfg.repl))?;
+            let (res, read) = do_call(&mut dec, &mut run, &c.src, c.cap, c.last, c.fill, c.repl(cfg.repl), c.sink(cfg.sink))?;
             stream.extend_from_slice(&c.src[..read]);
             rem = c.src[read..].to_vec();
             last = c.last;
@@ -446,7 +470,7 @@ impl<'a> Explorer<'a> {
                 last = true;
             }
             let cap = rem.len() * 4 + 64;
-            let (res, read) = do_call(&mut dec, &mut run, &rem.clone(), cap, last, 0, cfg.repl)?;
+            let (res, read) = do_call(&mut dec, &mut run, &rem.clone(), cap, last, 0, cfg.repl, cfg.sink)?;
             stream.extend_from_slice(&rem[..read]);
             rem = rem[read..].to_vec();
             done_chunk = res == Res::InputEmpty;
@@ -541,12 +565,14 @@ impl<'a> Explorer<'a> {
 
     /// Executes one action from node `id` and records everything.
     #[allow(clippy::too_many_arguments)]
-    fn transition(&self, l: &mut Local, id: u32, key: &Key, src: &[u8], last: bool, fresh: bool, cap: usize, dalign: u8, salign: u8, repl: bool) {
-        let cfg = self.cfg;
+    fn transition(&self, l: &mut Local, id: u32, key: &Key, src: &[u8], last: bool, fresh: bool, cap: usize, dalign: u8, salign: u8, repl: bool, sink: Sink) {
+        // the view of the configuration with this call's sink (mixed-sink runs)
+        let cfg: &XCfg = if sink == self.cfg.sink { self.cfg } else { &self.cfg_alt };
         let or = &cfg.or;
         let min = cfg.sink.min_cap();
         let base_fill: u8 = if cfg.sink == Sink::Str { 0x25 } else { 0xA5 };
-        let call = Call { src: src.to_vec(), cap, last, fill: base_fill, dalign, salign, method: if cfg.mixed { repl as u8 } else { 2 } };
+        let method = if cfg.mixed_sink { 4 + repl as u8 + 2 * sink.is_utf16() as u8 } else if cfg.mixed { repl as u8 } else { 2 };
+        let call = Call { src: src.to_vec(), cap, last, fill: base_fill, dalign, salign, method };
         l.stats.transitions += 1;
         let mut dec = key.dec.clone();
         let d = Dst { cap, fill: base_fill, align: dalign as usize, prior: None };
@@ -696,7 +722,7 @@ impl<'a> Explorer<'a> {
         };
         // ---- C07
         if or.query {
-            if let Some(q) = self.query(&key.dec, src.len(), repl) {
+            if let Some(q) = self.query(&key.dec, src.len(), repl, sink) {
                 if cap >= q && o.res == Res::OutputFull {
                     self.vio(l, "C07", "outputfull-despite-queried-capacity", format!("query for {} input bytes returned {}, capacity {} offered, result OutputFull (read {}, written {})", src.len(), q, cap, o.read, o.written), id, &call);
                 }
@@ -968,10 +994,9 @@ impl<'a> Explorer<'a> {
                 return l;
             }
             let src = key.rem.clone();
-            let methods: &[bool] = if self.cfg.mixed { &[false, true] } else { std::slice::from_ref(&self.cfg.repl) };
-            for &repl in methods {
-                for cap in self.caps(&key, &src, key.last, repl) {
-                    self.transition(&mut l, id, &key, &src, key.last, false, cap, 0, 0, repl);
+            for &(repl, sink) in self.methods.iter() {
+                for cap in self.caps(&key, &src, key.last, repl, sink) {
+                    self.transition(&mut l, id, &key, &src, key.last, false, cap, 0, 0, repl, sink);
                 }
             }
         } else {
@@ -986,14 +1011,13 @@ impl<'a> Explorer<'a> {
                 &self.chunks
             };
             for ch in chunks.iter().skip(lo).take(hi - lo) {
-                let methods: &[bool] = if self.cfg.mixed { &[false, true] } else { std::slice::from_ref(&self.cfg.repl) };
                 for last in [false, true] {
-                    for &repl in methods {
-                        let caps = self.caps(&key, ch, last, repl);
+                    for &(repl, sink) in self.methods.iter() {
+                        let caps = self.caps(&key, ch, last, repl, sink);
                         for cap in caps {
                             let al: &[(u8, u8)] = if ch.len() >= 16 { aligns } else { &[(0, 0)] };
                             for &(da, sa) in al {
-                                self.transition(&mut l, id, &key, ch, last, true, cap, da, sa, repl);
+                                self.transition(&mut l, id, &key, ch, last, true, cap, da, sa, repl, sink);
                             }
                         }
                     }
@@ -1414,13 +1438,14 @@ pub fn replay(j: &J) -> Result<J, String> {
     let calls: Vec<Call> = j.get("calls").and_then(|x| x.as_arr()).ok_or("calls")?.iter().map(Call::from_json).collect();
     let render = |run: &DecRun| -> J {
         let mut a = vec![];
-        for o in &run.obs {
+        for (i, o) in run.obs.iter().enumerate() {
+            let sink = calls.get(i).map(|c| c.sink(sink)).unwrap_or(sink);
             a.push(J::obj().set("result", J::s(&o.res.short())).set("read", J::i(o.read)).set("written", J::i(o.written)).set("out", J::s(&if sink.is_utf16() { hex16(&o.out16) } else { hex(&o.out8) })).set("had_errors", match o.had_errors {
                 Some(b) => J::Bool(b),
                 None => J::Null,
             }));
         }
-        let canon: Vec<J> = run.obs.iter().map(|o| J::s(&obs_canon(o, sink.is_utf16()))).collect();
+        let canon: Vec<J> = run.obs.iter().enumerate().map(|(i, o)| J::s(&obs_canon(o, calls.get(i).map(|c| c.sink(sink)).unwrap_or(sink).is_utf16()))).collect();
         let mut r = J::obj().set("calls", J::Arr(a)).set("tokens", J::s(&toks_short(&run.toks))).set("canon", J::Arr(canon));
         if let Some((i, m)) = &run.panic {
             r.put("panic", J::obj().set("call", J::i(*i)).set("message", J::s(m)));
